@@ -368,10 +368,16 @@ Inductive raw : Type := Raw (cls tag : N) (content full : N) (children : list ra
 Definition sizeof_raw : N := 88.       (* asn1struct.Raw: 2 ints + 2 byte slices + 1 slice *)
 Definition sizeof_rawvalue : N := 80.  (* asn1.RawValue boxed by Unmarshal's reflection *)
 
+(* append(items, item) on a slice with c elements and capacity cap: a new backing array of
+   twice the capacity (1 for the first element) when the slice is full *)
+Definition append_grow (sz c cap : N) : N * log :=
+  if c =? cap then (let cap' := if cap =? 0 then 1 else 2 * cap in (cap', [Grow (sz * cap')]))
+  else (cap, []).
+
 (* raw.go:12-36 ParseRaw.  Bytes/FullBytes are sub-slices of the input (no allocation);
-   [items] grows by append; every Unmarshal boxes one RawValue.  [c] = items appended so far
-   at this level. *)
-Fixpoint der_parse_items (fuel : nat) (rest : bytes) (c : N) : cres (list raw) :=
+   [items] grows by append; every Unmarshal boxes one RawValue.  [c], [cap] = length and
+   capacity of items at this level. *)
+Fixpoint der_parse_items (fuel : nat) (rest : bytes) (c cap : N) : cres (list raw) :=
   match fuel with
   | O => rfail "fuel"
   | S f =>
@@ -383,17 +389,18 @@ Fixpoint der_parse_items (fuel : nat) (rest : bytes) (c : N) : cres (list raw) :
           | None => rfail "data truncated"
           | Some (content, rest') =>
               tick (Grow sizeof_rawvalue)
-              (let+ children := (if h_compound h then der_parse_items f content 0 else rret []) in
+              (let+ children := (if h_compound h then der_parse_items f content 0 0 else rret []) in
                let item := Raw (h_class h) (h_tag h) (h_len h) (h_hdrlen h + h_len h) children in
-               logged (append_log sizeof_raw c)
+               let '(cap', lg) := append_grow sizeof_raw c cap in
+               logged lg
                (match rest' with
                 | [] => rret [item]
-                | _ => rmap (cons item) (der_parse_items f rest' (c + 1))
+                | _ => rmap (cons item) (der_parse_items f rest' (c + 1) cap')
                 end))
           end
       end
   end.
-Definition der_parse_raw (data : bytes) : cres (list raw) := der_parse_items (S (length data)) data 0.
+Definition der_parse_raw (data : bytes) : cres (list raw) := der_parse_items (S (length data)) data 0 0.
 
 Fixpoint raw_depth (r : raw) : nat :=
   match r with Raw _ _ _ _ ch => S (fold_right (fun x m => Nat.max (raw_depth x) m) O ch) end.
